@@ -336,8 +336,9 @@ func init() {
 			ob.Lookups = shProbe(o.Probe)
 			switch o.Op {
 			case "fs":
-				// the program is removed / put back / made (non-)executable between calls; the epoch
-				// variable makes the change visible as a change of the environment
+				// a program is removed / put back / made (non-)executable, the working directory is changed,
+				// plain files appear in / vanish from a directory between calls; the epoch variable makes the
+				// change visible as a change of the environment
 				switch o.Act {
 				case "remove":
 					os.Rename(o.Path, o.Path+".gone")
@@ -347,6 +348,13 @@ func init() {
 					os.Chmod(o.Path, 0644)
 				case "chmod+x":
 					os.Chmod(o.Path, 0755)
+				case "chdir":
+					// the working directory is part of the state of a history
+					os.Chdir(o.Path)
+				case "create":
+					ioutil.WriteFile(o.Path, []byte("x\n"), 0644)
+				case "delete":
+					os.Remove(o.Path)
 				}
 				os.Setenv("VERIF_FS_EPOCH", o.Epoch)
 			case "setenv":
